@@ -1,8 +1,9 @@
 CHECKS["C10"] = dict(
     engine="E3",
-    overlay_dirs={**SIM, "verifx/c10k": "harness/x/c10k"}, overlay={**SIM_ACCESS, "protocol/comm/zz_verif_access.go": "harness/access/comm/zz_verif_access.go"},
+    overlay_dirs={**SIM, "verifx/c10k": "harness/x/c10k", "verifx/c02": "harness/x/c02", "verifx/certspec": "harness/certspec"}, overlay={**SIM_ACCESS, "protocol/comm/zz_verif_access.go": "harness/access/comm/zz_verif_access.go"},
     units=[unit("c10", "./verifx/sim", "^TestC10", shards=(16, 16), timeout=(900, 3400)),
            unit("c10kauri", "./verifx/c10k", "^TestC10Kauri", shards=(8, 16), timeout=(900, 3400)),
+           unit("c10anyqc", "./verifx/c02", "^TestC10ProposalCertificates", shards=(8, 16), timeout=(900, 3400)),
            unit("c10fuzz", "./verifx/sim", "^$", tiers=("thorough",), fuzz="FuzzC10Wire", fuzztime={"quick": 20, "thorough": 240}, fuzzworkers=16, timeout=(600, 900))],
     rule=("a live replica (all real handlers on its event loop; chained/simple/fast; ECDSA/EdDSA/BLS; cache on/off) is first "
           "driven 0..12 FIFO generations into a reachable state, then 1..5 rapid-generated wire messages are handed to the "
@@ -25,7 +26,7 @@ CHECKS["C10"] = dict(
           "member signature under an unknown id, valid one / some / quorum, repeated signer, quorum plus unknown signer), mixed with "
           "the node's own aggregation rounds for blocks of rising view, wait-timer expiries and the connect event. Oracle: no panic; "
           "a contribution in which nothing verifies leaves (aggregate, senders, sent flag, view, messages sent to the parent, "
-          "certificates announced) unchanged."),
+          "certificates announced) unchanged. Proposal verification with GENUINE aggregate certificates (TestC10ProposalCertificates, shared generator with C02): Authority.VerifyAnyQC on proposals that combine generated aggregate certificates (honest ones included) with each of 13 prepared block certificates - valid, invalid, and without a signature next to a signed one for the same block and view - never panics."),
     assumptions=["the gorums transport and protobuf decoding are not exercised here (protobuf guarantees well-typed messages; byte-level decode fuzzing is part of C12)",
                  "tree-contribution messages are delivered to a stand-alone tree node (real Kauri module, authority, block chain and event loop; mock sender), not to the full replica stack"],
 )
